@@ -523,7 +523,10 @@ pub fn profile(name: &str) -> WalkCfg {
             w_call: 10, w_ack: 15, w_inbound: 40, w_dropst: 3, kinds: vec![("sub", 6), ("unsub", 2), ("pub1", 1), ("ping", 1)],
             multi_sid_pct: 10, ..base
         },
-        "cancel" => WalkCfg { w_cancel: 10, w_dropst: 4, w_inbound: 12, ..base },
+        "cancel" => WalkCfg {
+            w_cancel: 10, w_dropst: 8, w_inbound: 25, multi_sid_pct: 35, nosid_pct: 3, unknown_sid_pct: 3,
+            kinds: vec![("pub0", 1), ("pub1", 4), ("pub2", 4), ("sub", 7), ("unsub", 1), ("ping", 2)], ..base
+        },
         "life" => WalkCfg {
             steps: 25,
             endings: vec!["disc", "srvdisc0", "srvdisc", "eof", "rderr", "handles", "wrerr", "ctxdrop"],
